@@ -527,3 +527,18 @@ where
         _ => "bad-op".to_string(),
     }
 }
+
+/// `I64Ops::i64_convolution_by_const` (the `i64` by-constant convolution of the FFT64 family) on one explicit block:
+/// `id cnvk be=<fref|favx> dst=<rows> off=<offset> asz=<a_size> x=<8·a_size i64> y=<constants>` → the `8·dst` words written
+pub fn cnvk<T: poulpy_cpu_ref::reference::fft64::convolution::I64Ops>(r: &Req) -> String {
+    let (dst_size, offset, a_size) = (r.usize("dst"), r.usize("off"), r.usize("asz"));
+    let x: Vec<i64> = r.list("x");
+    let y: Vec<i64> = r.list("y");
+    let mut dst = G::new(&vec![0x5555_5555_5555_5555i64; 8 * dst_size], 0x7A7A_1111_2222_3333i64);
+    T::i64_convolution_by_const(dst.m(), dst_size, offset, &x, a_size, &y);
+    let mut s = show(dst.s());
+    if dst.stray().is_some() {
+        s.push_str("|stray");
+    }
+    s
+}
